@@ -83,9 +83,17 @@ def run(plan):
 
         prev = 0
         group = 0
+        flush_pos = None
+        if plan.get("idle_before"):
+            await asyncio.sleep(plan["idle_before"])          # a connection that has been quiet for a while
+            w.fire("idle_before_stream")
+        long_gaps = set(plan.get("long_gaps", []))
         for bi, b in enumerate(bounds):
             seg = stream[prev:b]
             prev = b
+            if bi in long_gaps:
+                await asyncio.sleep(plan.get("long_gap_s", 11.0))   # a long pause between two segments
+                w.fire("long_gap_between_segments")
             conn.send(seg, lat=TICK, gap=TICK)
             group += 1
             # gap0: deliver pairs of segments in consecutive ticks without draining in between
@@ -102,8 +110,16 @@ def run(plan):
                 res.fail(f"read raised {type(e).__name__}", repr(e))
                 return
             got.extend(new)
-            exp = codec.v3_reassemble(stream[:b])
+            if flush_pos is None:
+                exp = codec.v3_reassemble(stream[:b])
+            else:
+                # everything buffered at the flush was discarded; later bytes are reassembled from there
+                exp = codec.v3_reassemble(stream[:flush_pos]) + codec.v3_reassemble(stream[flush_pos:b])
             exp_payloads = [p[8:] for _end, p in exp]
+            if plan.get("flush_at") == bi and flush_pos is None and hasattr(proto, "_flush"):
+                proto._flush()              # what authenticate() does before every handshake
+                flush_pos = b
+                w.fire("flush_with_partial_packet_pending")
             if got != exp_payloads:
                 if len(got) < len(exp_payloads) and got == exp_payloads[:len(got)]:
                     res.fail("packet not delivered when its last byte arrived",
@@ -117,7 +133,7 @@ def run(plan):
                 return
             if len(new) >= 2:
                 w.probe("several_packets_in_one_segment")
-        if [p[8:] for _e, p in expected_all] != payloads:
+        if flush_pos is None and [p[8:] for _e, p in expected_all] != payloads:
             raise RuntimeError("generator produced a stream the reference reassembler reads differently")
         if len(cuts) >= 2:
             w.probe("reassembly_spanned_3+_segments")
@@ -139,7 +155,7 @@ def run(plan):
         res.fired["garbage_prefix"] = 1
     if len(payloads) >= 2 and len(cuts) < len(payloads) - 1:
         res.fired["seg_coalesce"] = 1
-    res.key = (stream, tuple(cuts), gap0)
+    res.key = (stream, tuple(cuts), gap0, plan.get("idle_before"), tuple(plan.get("long_gaps", [])), plan.get("flush_at"))
     res.nontrivial = bool(cuts) or has_garbage or len(payloads) >= 2
     return res
 
@@ -227,8 +243,8 @@ def space(tier):
             if rng.random() < 0.35:
                 ops.append({"op": "garbage", "hex": _garbage(rng, rng.choice([1, 1, 2, 3, 5, 17, 64])).hex()})
             size = rng.choice([0, 0, 1, 2, 6, 7, 8, 9, 14, 15, 16, 17, 64, 104, 255, 256, 257, rng.randint(0, 600)])
-            style = rng.choice(["plain", "marker", "marker", "marker_hdr", "marker_tail"])
-            ops.append({"op": "packet", "payload": _payload(rng, size, style).hex()})
+            style = rng.choice(["plain", "plain", "marker", "marker", "marker_hdr", "marker_tail"])
+            ops.append({"op": "packet", "payload": _payload(rng, size, style).hex(), "style": style})
         s, _ = build_stream(ops)
         n = len(s)
         style = rng.choice(["none", "one", "few", "few", "many", "many", "all", "hdr"])
@@ -252,7 +268,19 @@ def space(tier):
             cuts = sorted(set(cuts))
         else:
             cuts = list(range(1, n)) if n <= 700 else sorted({rng.randrange(1, n) for _ in range(300)})
-        return {"ops": ops, "cuts": cuts, "gap0": rng.random() < 0.3}
+        p = {"ops": ops, "cuts": cuts, "gap0": rng.random() < 0.3}
+        if rng.random() < 0.25:
+            p["idle_before"] = rng.choice([2.5, 11.0, 61.0, 3700.0])
+        if cuts and rng.random() < 0.25:
+            p["long_gaps"] = sorted({rng.randrange(0, len(cuts) + 1) for _ in range(rng.randint(1, 3))})
+            p["long_gap_s"] = rng.choice([2.5, 11.0, 61.0])
+            p["gap0"] = False
+        if cuts and rng.random() < 0.15 and all(op.get("style", "plain") == "plain" for op in ops):
+            # a receive-queue flush (re-authentication) mid-stream; what is left of an abandoned packet must be
+            # marker-free garbage for the property to apply, hence plain payloads only
+            p["flush_at"] = rng.randrange(0, len(cuts))
+            p["gap0"] = False
+        return p
     sp.add("random", 40000 if tier == "quick" else 1_500_000, rnd)
     return sp
 
